@@ -1,3 +1,5 @@
+//go:build verif
+
 package pools
 
 import (
@@ -101,6 +103,110 @@ func TestExplore(t *testing.T) {
 	}
 }
 
+// TestExplorePersist extracts the tables of DistributedAllocator over the scripted store (C12)
+// and of the allocators that support a marshal round trip.
+func TestExplorePersist(t *testing.T) {
+	out := core.OutDir()
+	if rf := os.Getenv("VERIF_REPLAY"); rf != "" {
+		replay(t, rf, out)
+		return
+	}
+	tier := core.Tier()
+	seed := core.Seed()
+	depth, maxNodes, nsubs := 5, 2500, 3
+	if tier == "thorough" {
+		depth, maxNodes = 7, 20000
+	}
+	bundle := &core.Bundle{}
+	st := runStats{PerSystem: map[string][3]int{}}
+	var systems []core.System
+	for _, s := range persistSystems(nsubs) {
+		if s.NSubs == nsubs {
+			systems = append(systems, s)
+		}
+	}
+	for _, a := range Catalogue() {
+		for _, o := range a.Ops {
+			if o == "reload" && a.Impl != "allocator.DistributedAllocator-session" {
+				systems = append(systems, NewPoolSystem(a, nsubs, nil))
+			}
+		}
+	}
+	for _, sys := range systems {
+		tab, panics, err := core.Explore(sys, core.ExploreOptions{MaxDepth: depth, MaxNodes: maxNodes, AdequacySample: 5, Seed: seed})
+		if err != nil {
+			t.Fatalf("explore %s: %v", sys.Name(), err)
+		}
+		st.Panics = append(st.Panics, panics...)
+		bundle.Systems = append(bundle.Systems, tab)
+		ne := 0
+		for _, es := range tab.Edges {
+			ne += len(es)
+		}
+		c := 0
+		if tab.Closed {
+			c = 1
+			st.Closed++
+		}
+		st.PerSystem[sys.Name()] = [3]int{len(tab.Nodes), ne, c}
+		st.Systems++
+		st.Nodes += len(tab.Nodes)
+		st.Edges += ne
+	}
+	// long random chains on larger pools
+	rng := rand.New(rand.NewSource(seed))
+	nchains, chainLen := 6, 200
+	if tier == "thorough" {
+		nchains, chainLen = 40, 800
+	}
+	for _, ps := range []*PersistSystem{NewPersistSystem(G4_28, "session", 0, 4), NewPersistSystem(G4_28, "lease", 1, 4), NewPersistSystem(G6_57, "session", 0, 4)} {
+		evs := ps.Events()
+		for c := 0; c < nchains; c++ {
+			var seqv []core.Event
+			for i := 0; i < chainLen; i++ {
+				seqv = append(seqv, evs[rng.Intn(len(evs))])
+			}
+			tab, pr := core.Chain(ps, fmt.Sprintf("%s#%d", ps.Name(), c), seqv, false)
+			if pr != nil {
+				st.Panics = append(st.Panics, *pr)
+				continue
+			}
+			bundle.Systems = append(bundle.Systems, tab)
+			st.Chains++
+			st.ChainEvents += len(seqv)
+		}
+	}
+	if err := core.WriteJSON(out, "bundle.json", bundle); err != nil {
+		t.Fatal(err)
+	}
+	if err := core.WriteJSON(out, "stats.json", st); err != nil {
+		t.Fatal(err)
+	}
+}
+
+func persistSystems(nsubs int) []*PersistSystem {
+	return []*PersistSystem{
+		NewPersistSystem(G4_29, "session", 0, nsubs),
+		NewPersistSystem(G6_61, "session", 0, nsubs),
+		NewPersistSystem(G4_28_30, "session", 0, nsubs),
+		NewPersistSystem(G4_29, "lease", 1, nsubs),
+		NewPersistSystem(G4_29hi, "lease", 2, nsubs),
+		NewPersistSystem(G4_28, "session", 0, 4), NewPersistSystem(G4_28, "lease", 1, 4), NewPersistSystem(G6_57, "session", 0, 4),
+	}
+}
+
+func findSystem(name string, nsubs int) (core.System, bool) {
+	for _, ps := range persistSystems(nsubs) {
+		if ps.Name() == name && ps.NSubs == nsubs {
+			return ps, true
+		}
+	}
+	if a, ok := FindAdapter(name, nsubs); ok {
+		return NewPoolSystem(a, nsubs, nil), true
+	}
+	return nil, false
+}
+
 func replay(t *testing.T, file, out string) {
 	b, err := os.ReadFile(file)
 	if err != nil {
@@ -120,11 +226,10 @@ func replay(t *testing.T, file, out string) {
 				break
 			}
 		}
-		a, ok := FindAdapter(name, c.NSubs)
+		sys, ok := findSystem(name, c.NSubs)
 		if !ok {
 			t.Fatalf("unknown system %q", c.System)
 		}
-		sys := NewPoolSystem(a, c.NSubs, nil)
 		tab, pr := core.Chain(sys, name+"#"+c.ID, c.Events, true)
 		if pr != nil {
 			st.Panics = append(st.Panics, *pr)
